@@ -183,6 +183,8 @@ pub struct World {
     pub yield_every: Cell<u32>,
     /// a collect-until-quiet loop requested from a callback is running (do not start another one inside it)
     pub nested_quiet: Cell<bool>,
+    /// objects with an id below this existed when the (first) injected panic was caught: only they may be affected by it
+    pub fault_obj_mark: Cell<u32>,
 }
 
 impl World {
@@ -243,6 +245,7 @@ impl World {
             expected_panics: Cell::new(0),
             yield_every: Cell::new(0),
             nested_quiet: Cell::new(false),
+            fault_obj_mark: Cell::new(u32::MAX),
         }
     }
 }
